@@ -729,6 +729,7 @@ class Eval:
         self.keys = []
         self.per_fn = {}
         self.held = None       # (fname, enc args, [arrays of the port's previous result], [their snapshots])
+        self.bufs = {}         # fname -> list of persistent argument arrays, overwritten in place from case to case
 
     def _count(self, fname, what):
         d = self.per_fn.setdefault(fname, {})
@@ -786,6 +787,39 @@ class Eval:
         arrs = self._arrays(out)
         self.held = (fname, enc_args(args), arrs, [a.copy() for a in arrs]) if arrs else None
 
+    def _reused_buffers(self, fname, args, p_fresh, case, fl):
+        """The caller keeps ONE set of argument arrays per function (its robot description, its state vectors) and
+        overwrites them in place from call to call.  The port must answer for the values the arrays hold now: exactly what
+        it answers for fresh copies.  (A memo keyed on the identity of an argument array is only wrong here.)"""
+        if fname in ("SimulateControl", "ForwardDynamicsTrajectory", "InverseDynamicsTrajectory"):
+            return                                  # integrators: covered by the held-result check, too slow to run twice
+        shapes = [a.shape if isinstance(a, np.ndarray) else None for a in args]
+        b = self.bufs.get(fname)
+        if b is None or [x.shape if isinstance(x, np.ndarray) else None for x in b] != shapes:
+            b = self.bufs[fname] = [np.array(a, dtype=np.float64, order="C", copy=True) if isinstance(a, np.ndarray) else a for a in args]
+            first = True
+        else:
+            first = False
+            try:
+                getattr(self.mr, fname)(*b)          # the buffers still hold the previous case: whatever the port remembers, it remembers now
+            except Exception:
+                pass
+            for i, a in enumerate(args):
+                if isinstance(a, np.ndarray):
+                    b[i][...] = a
+                else:
+                    b[i] = a
+        try:
+            out = getattr(self.mr, fname)(*b)
+        except Exception as e:
+            self.acc.violation("reused_argument_buffers", dict(case, kind="reused", first=first), repr(e)[:200], None, {}, fl)
+            return
+        st, val = compare(out, p_fresh, 1e-12)
+        if st not in ("ok", "ref_not_finite"):
+            prev = self.bufs.get(("prev", fname))
+            self.acc.violation("reused_argument_buffers", dict(case, kind="reused", prev_args=prev), val, 1e-12, {}, fl)
+        self.bufs[("prev", fname)] = enc_args(args)
+
     def case(self, fname, args, opts, part=None, idx=None):
         if opts.get("kind") == "ik":
             return self.case_ik(fname, args, part, idx)
@@ -805,6 +839,7 @@ class Eval:
             self._count(fname, "port_raised")
             return
         self._hold(fname, args, p)
+        self._reused_buffers(fname, args, p, case, fl)
         st, val = compare(p, r, tol)
         if st == "ref_not_finite":
             acc.skip("reference_not_finite")
@@ -1079,6 +1114,25 @@ def replay(rec):
     c = rec["case"]
     args = dec_args(c["args"])
     E = Eval(lattice.Acc())
+    if c.get("kind") == "reused":
+        fn = getattr(E.mr, c["fn"])
+        prev = dec_args(c["prev_args"]) if c.get("prev_args") else None
+        if prev is None:
+            return []
+        bufs = fresh(prev)
+        try:
+            fn(*bufs)
+            for i, a in enumerate(args):
+                if isinstance(a, np.ndarray):
+                    bufs[i][...] = a
+                else:
+                    bufs[i] = a
+            out = fn(*bufs)
+            want = fn(*fresh(args))
+        except Exception as e:
+            return [{"clause": rec["clause"], "observed": repr(e)}]
+        st, val = compare(out, want, 1e-12)
+        return [{"clause": rec["clause"], "observed": val}] if st not in ("ok", "ref_not_finite") else []
     if c.get("kind") == "held":
         ok1, first = E._call(E.mr, c["fn"], args)
         if not ok1:
